@@ -278,7 +278,11 @@ func genWave(r *vlib.R, kind string, groups int) string {
 		parts = append(parts, fmt.Sprintf("cancellead:cold:%d:y", 3+r.Intn(3)))
 		parts = append(parts, fmt.Sprintf("cancelpair:pair:%d:x", 3+r.Intn(2)))
 	}
+	if kind == "z" { // more distinct questions for one zone than its quota of 16
+		parts = append(parts, fmt.Sprintf("shedreask:lag:%d:s", 22+r.Intn(8)))
+	}
 	if kind == "r" {
+		parts = append(parts, fmt.Sprintf("shedreask:lag:%d:s", 10+r.Intn(6)))
 		// hedged peers (one instant, two slow authorities) under a tiny attempt limiter,
 		// with clients that leave early
 		parts = append(parts, fmt.Sprintf("distudp:multi:%d:w", 6+r.Intn(6)), fmt.Sprintf("earlyclose:multi:%d:v", 2+r.Intn(2)))
@@ -294,12 +298,16 @@ func genSys(r *vlib.R, tier string, emit func(string)) {
 	for round := 0; round < rounds; round++ {
 		emit("sys new n 0")
 		emit("sys wave " + genWave(r, "n", 10))
-		emit("sys shift 2500") // cached failures expire: failure-probe cohorts against the failing zones
+		emit("sys nsaddr first")
+		emit("sys nsaddr last")
+		emit("sys shift 12000") // cached failures expire: failure-probe cohorts against the failing zones
 		emit("sys wave " + genWave(r, "n", 10))
 		emit("sys drain")
 		emit("sys new r 0")
 		emit("sys wave " + genWave(r, "r", 10))
-		emit("sys wave " + genWave(r, "r", 10))
+		emit("sys drain")
+		emit("sys new z 0")
+		emit("sys wave " + genWave(r, "z", 10))
 		emit("sys drain")
 		emit("sys new i 0")
 		emit("sys wave " + genWave(r, "i", 12))
@@ -328,7 +336,27 @@ func genExtra(r *vlib.R, tier string, emit func(string)) {
 		emit(fmt.Sprintf("res lateworker %d", 1+r.Intn(slots)))
 		emit(fmt.Sprintf("res lateworker %d", slots))
 	}
+	// the per-zone quota (max(MaxConcurrentQueries/16, 16)) and the resolution pool binding:
+	// bursts of distinct questions for one zone against an authority that never answers
+	for _, mc := range []int{32, 8} {
+		emit(fmt.Sprintf("res new %d", mc))
+		emit(fmt.Sprintf("gl burst %d", 18+r.Intn(12)))
+		emit(fmt.Sprintf("gl burst %d", 4+r.Intn(12)))
+	}
 	emit("res end")
+	for i := 0; i < rounds*3; i++ {
+		q := 1 + r.Intn(6)
+		emit(fmt.Sprintf("zl new %d", q))
+		for k := 0; k < 3+r.Intn(4); k++ {
+			if r.Chance(3, 5) {
+				emit(fmt.Sprintf("zl enter %d", 1+r.Intn(q+4)))
+			} else {
+				emit(fmt.Sprintf("zl leave %d", 1+r.Intn(q+2)))
+			}
+		}
+		emit(fmt.Sprintf("zl leave %d", q+8))
+		emit("zl enter 1")
+	}
 	for i := 0; i < rounds*8; i++ {
 		emit("burst new")
 		n := 2 + r.Intn(7)
